@@ -35,19 +35,19 @@ fn check_quorum<const K: usize>() {
     let q = c.quorum_threshold() as u64;
     let f = (n - 1) / 3;
     // q > 2n/3 (as rationals), q <= n - f, two quorums intersect in more than f stake
-    assert!(3 * q > 2 * n);
-    assert!(q <= n - f);
-    assert!(2 * q > n + f);
+    assert!(3 * q > 2 * n, "C17 q > 2n/3 violated");
+    assert!(q <= n - f, "C17 q <= n - f violated");
+    assert!(2 * q > n + f, "C17 two quorums do not overlap in more than f");
     // honest authorities alone can form a quorum
-    assert!(n - f >= q);
+    assert!(n - f >= q, "C17 honest stake cannot form a quorum");
     // stake lookup: member -> its stake; unknown -> 0
     let who: u8 = vwit::any_u8();
     vwit::assume((who as usize) < K + 2);
     let s = c.stake(&key(who));
     if (who as usize) < K {
-        assert!(s == stakes[who as usize]);
+        assert!(s == stakes[who as usize], "C17 stake of a member");
     } else {
-        assert!(s == 0);
+        assert!(s == 0, "C17 unknown authority has stake");
     }
     vwit::cover!(n == 4 && q == 3);
     vwit::cover!(n > 1_000_000_000);
@@ -95,10 +95,10 @@ fn check_same<const K: usize>() {
     }
     m.n = K;
     let mc = mempool::Committee { authorities: m, epoch: 1 };
-    assert!(c.quorum_threshold() == mc.quorum_threshold());
+    assert!(c.quorum_threshold() == mc.quorum_threshold(), "C17 consensus and mempool thresholds differ");
     let who: u8 = vwit::any_u8();
     vwit::assume((who as usize) < K + 2);
-    assert!(c.stake(&key(who)) == mc.stake(&key(who)));
+    assert!(c.stake(&key(who)) == mc.stake(&key(who)), "C17 consensus and mempool stakes differ");
     vwit::cover!(c.quorum_threshold() == 3);
     std::mem::forget(c);
     std::mem::forget(mc);
